@@ -94,9 +94,13 @@ def mutate_steps(r, steps):
     elif len(steps) >= 3 and k < 0.36:  # skip one
         i = r.randrange(1, len(steps) - 1)
         steps = steps[:i] + steps[i + 1:]
-    elif len(steps) >= 2 and k < 0.46:  # wrong payload length in a non-final continuation
+    elif len(steps) >= 2 and k < 0.46:  # wrong payload length in a continuation
         cands = [i for i in range(1, len(steps)) if steps[i]["b1"][1]]
-        if cands:
+        if r.chance(0.3) and not steps[-1]["b1"][1]:
+            # the final block carries more than a block of its size can hold
+            p = bytes.fromhex(steps[-1]["payload"])
+            steps[-1]["payload"] = (p + b"Z" * (size_of(steps[-1]["b1"][2]) - len(p) + r.choice([1, 5, 300]))).hex()
+        elif cands:
             i = r.choice(cands)
             p = bytes.fromhex(steps[i]["payload"])
             steps[i]["payload"] = (p[:-1] if r.chance(0.5) else p + b"Z").hex()
@@ -623,7 +627,7 @@ def execute(sim, scn):
                 appended = True
             else:
                 ex = exists(ent, now)
-                wrong_len = bool(more) and len(payload) != size
+                wrong_len = (len(payload) != size) if more else (len(payload) > size)
                 if ent is not None and ent.get("uncertain"):
                     ex = None
                 if ex is None:
